@@ -82,6 +82,15 @@ def run(ctx):
         inp = rnd.choice(INPUTS)
         if '(range .)' in e and inp in ('18446744073709551615', '1e300'): inp = '7'        # collection sizes <= 10^4 (resource exhaustion is out of scope)
         cases.append(mkcase('E%d' % i, cfg, inp.encode('utf8')))
+    # recursion that ends because `or` / `and` / `?` / `default` do not evaluate the argument they do not need (a recursive macro that
+    # never ends is the known finding K3; these do end)
+    LAZY = ['(define "down" (or (<= . 0) (| (- . 1) @down)) @down)', '(define "down" (and (> . 0) (| (- . 1) @down)) @down)', '(define "down" (? (<= . 0) "end" (| (- . 1) @down)) @down)',
+            '(define "cnt" (default (? (<= . 0) 0 null) (+ 1 (| (- . 1) @cnt))) @cnt)']      # (tree recursion such as fibonacci is beyond the model's strict evaluation of macro fuel: linear recursions only)
+    k = 0
+    for e in LAZY:
+        for n in (0, 1, 2, 5, 12):
+            k += 1; cases.append(mkcase('E_l%d' % k, lib.new_cfg(select=[e + '=x']), b'%d' % n))
+            k += 1; cases.append(mkcase('E_l%d' % k, lib.new_cfg(set=['@' + e[9:e.index('"', 9)] + '=' + e[e.index('" ', 9) + 2:e.rindex(' @')]], select=['@' + e[9:e.index('"', 9)] + '=x']), b'%d' % n))
     # non-finite numbers arise from finite literals through arithmetic; everything that consumes a number must cope with them
     NONFIN = ['(- (* 1e308 10) (* 1e308 10))', '(% (* 1e308 10) 2)', '(/ 0 0)', '(* 1e308 10)', '(- 0 (* 1e308 10))', '(/ 1 0)']
     CONS = ['(< %s 1)', '(<= 1 %s)', '(> %s %s)', '(= %s %s)', '(sort [%s, 1, %s, -1])', '(sort_unique [%s, %s])', '(sort_by [{"v": %s}, {"v": 1}, {"v": %s}] .v)', '(stringify %s)', '(round %s)', '(floor %s)',
